@@ -15,7 +15,9 @@ def sharing_doc(rng):
     g = gd.Gen(rng, gradients=True, clips=rng.random() < 0.5, strokes=True, nested_svg=rng.random() < 0.4, unique_fills=False, paint=False)
     r = rng
     base = r.choice(("a", "g", "gr", "x", "grad"))
-    gids = [base, f"{base}_0", f"{base}_1", f"{base}_0_0"][: r.randint(1, 4)]
+    # any subset of names that look like the ones the conversion generates (<id>_<n>), incl. gaps
+    cand = [f"{base}_0", f"{base}_1", f"{base}_2", f"{base}_0_0", f"{base}_1_0"]
+    gids = [base] + r.sample(cand, r.randint(0, 3))
     r.shuffle(gids)
     for gid in gids:
         g.defs.append(gd.gradient_node(g, r, gid, units=r.choice(("userSpaceOnUse", "objectBoundingBox"))))
@@ -27,7 +29,7 @@ def sharing_doc(rng):
     body = []
     for i in range(r.randint(2, 4)):
         s = g.shape(closed_only=True)
-        s.attrs["fill"] = f"url(#{r.choice(gids)})"
+        s.attrs["fill"] = f"url(#{base if r.random() < 0.5 else r.choice(gids)})"
         sid = f"sh{i}"
         s.attrs = {"id": sid, **s.attrs}
         g.idpool.append((sid, s))
